@@ -41,21 +41,26 @@ func SelectEqual(v string) func(string) bool {
 
 // asciiToInt converts bytes to int.
 func asciiToInt(bts []byte) (ret int, err error) {
-	// ASCII numbers all start with the high-order bits 0011.
-	// If you see that, and the next bits are 0-9 (0000 - 1001) you can grab those
-	// bits and interpret them directly as an integer.
+	// Only decimal digits are accepted; a value that does not fit into int is an
+	// error rather than a silently wrapped number.
 	var n int
 	if n = len(bts); n < 1 {
 		return 0, fmt.Errorf("converting empty bytes to int")
 	}
 	for i := 0; i < n; i++ {
-		if bts[i]&0xf0 != 0x30 {
+		if bts[i] < '0' || bts[i] > '9' {
 			return 0, fmt.Errorf("%s is not a numeric character", string(bts[i]))
 		}
-		ret += int(bts[i]&0xf) * pow(10, n-i-1)
+		d := int(bts[i] - '0')
+		if ret > (maxInt-d)/10 {
+			return 0, fmt.Errorf("%s overflows int", string(bts))
+		}
+		ret = ret*10 + d
 	}
 	return ret, nil
 }
+
+const maxInt = int(^uint(0) >> 1)
 
 // pow for integers implementation.
 // See Donald Knuth, The Art of Computer Programming, Volume 2, Section 4.6.3.
